@@ -441,6 +441,9 @@ HEADER_NATIVE_TEST = r"""
                     Header::new(version, dict).write(&mut out).unwrap();
                     assert_eq!(out.len() % 64, 0, "data must start at a multiple of 64 (dict length {text_len})");
                     assert_eq!(*out.last().unwrap(), b'\n', "header must end in a newline (dict length {text_len})");
+                    assert_eq!(&out[..6], b"\x93NUMPY", "magic string");
+                    assert_eq!((out[6], out[7]), match hl_bytes { 2 => (1, 0), _ => (out[6], 0) }, "version bytes");
+                    assert!(out[6] >= 1 && out[6] <= 3, "major version");
                     let start = 8 + hl_bytes;
                     assert_eq!(&out[start..start + text_len], text.as_bytes(), "the dict text must be written unaltered (dict length {text_len})");
                     assert!(out[start + text_len..out.len() - 1].iter().all(|&b| b == b' '), "only spaces may follow the dict before the newline (dict length {text_len})");
@@ -2070,6 +2073,39 @@ READ_SITE_SEQ_NATIVE_TEST = r"""
         }
         assert!(matches!(shared.read_site(), ReadStatus::Done), "after one call per record the reader is not done");
 
+        // with a projection: a record with more called chromosomes than the target is answered with
+        // the hypergeometric down-sampling of ITS counts from ITS number of called chromosomes
+        {
+            use crate::spectrum::project::PartialProjection;
+            let one_pop = || sample::Map::from_iter([("a", Some("p")), ("b", Some("p")), ("c", Some("p"))].map(|(s, p)| (s.to_string(), p.map(str::to_string))));
+            let miss = genotype::Result::Skipped(genotype::Skipped::Missing);
+            let recs = vec![
+                ("c1".to_string(), 1usize, g(Zero, One, Two)),                                                   // 6 called, 3 ALT
+                ("c1".to_string(), 2, vec![genotype::Result::Genotype(One), miss, genotype::Result::Genotype(One)]), // 4 called: exact
+                ("c1".to_string(), 3, g(Two, Two, One)),                                                         // 6 called, 5 ALT
+                ("c1".to_string(), 4, vec![miss, miss, genotype::Result::Genotype(One)]),                           // 2 called: insufficient
+                ("c1".to_string(), 5, g(One, Zero, Zero)),                                                       // 6 called, 1 ALT
+            ];
+            let want: Vec<Option<(u64, u64)>> = vec![Some((6, 3)), None, Some((6, 5)), None, Some((6, 1))];
+            let mut r = Reader::new_unchecked(Box::new(mk(recs)), one_pop(), Some(PartialProjection::new(crate::spectrum::Count::from(vec![4usize]))));
+            for (i, w) in want.iter().enumerate() {
+                let mut scs = crate::Scs::from_zeros(crate::array::Shape(vec![5]));
+                match (r.read_site(), w) {
+                    (ReadStatus::Read(Site::Projected(p)), Some((size, alt))) => {
+                        p.add_unchecked(&mut scs);
+                        for k in 0..5u64 {
+                            let h = crate::utils::hypergeometric_pmf(*size, *alt, 4, k);
+                            let got = scs.inner().iter().nth(k as usize).copied().unwrap();
+                            assert!((got - h).abs() < 1e-12, "record {i}: projected cell {k} is {got}, expected H({size},{alt},4,{k}) = {h}");
+                        }
+                    }
+                    (ReadStatus::Read(Site::Standard(c)), None) if i == 1 => assert_eq!(c.as_ref(), &[2usize][..], "record 1 has exactly the target size"),
+                    (ReadStatus::Read(Site::InsufficientData), None) if i == 3 => {}
+                    _ => panic!("record {i} is not answered as the statement prescribes"),
+                }
+            }
+        }
+
         // an error of the genotype reader is passed on as that error, at any position in the stream
         struct KvFail {
             samples: Vec<Sample>,
@@ -2397,6 +2433,21 @@ PROJECTION_NATIVE_TEST = r"""
                     sites.push((Count::from([a, b]), Count::from([x.min(a), y.min(b)])));
                 }
             }
+        }
+        for (pf, f) in sites.iter() {
+            // a fresh projection gives the product of the per-population pmf terms, row-major from index 0
+            let fresh = run(&mut PartialProjection::new(Count::from(to)), pf, f, 9);
+            for (cell, bits) in fresh.iter().enumerate() {
+                let (k0, k1) = ((cell / 3) as u64, (cell % 3) as u64);
+                let want = crate::utils::hypergeometric_pmf(pf[0] as u64, f[0] as u64, 2, k0) * crate::utils::hypergeometric_pmf(pf[1] as u64, f[1] as u64, 2, k1);
+                assert!((f64::from_bits(*bits) - want).abs() <= 1e-12, "sizes {pf:?} counts {f:?}: cell ({k0},{k1}) is {}, expected {want}", f64::from_bits(*bits));
+            }
+            // and the fixed-size Projection passes its own sizes
+            let mut full = Projection::new_unchecked(pf.clone(), Count::from(to));
+            let mut scs = Scs::from_zeros(Count::from(to).into_shape());
+            full.project_unchecked(f).add_unchecked(&mut scs);
+            let via_full: Vec<u64> = scs.inner().iter().map(|x| x.to_bits()).collect();
+            assert_eq!(via_full, fresh, "Projection::project_unchecked differs from the partial projection with the same sizes ({pf:?}, {f:?})");
         }
         for (i, (pf1, f1)) in sites.iter().enumerate() {
             for (pf2, f2) in sites.iter().skip(i % 7).step_by(7) {
